@@ -25,14 +25,20 @@ class Run:
 
     @property
     def has_error_line(self):
-        return any(l.startswith("Error:") for l in self.err_text.splitlines())
+        """An error message on stderr.  The tree writes "Error: ..." lines; the property only says "an error message", so any
+        line that announces an error counts, and so does any text at all on stderr of a run that exited non-zero."""
+        import re
+        lines = self.err_text.splitlines()
+        if any(re.match(r"(?i)^\W*(kestrel:\s*)?(error|fatal)\b", l) for l in lines):
+            return True
+        return self.rc not in (0, None) and any(l.strip() for l in lines)
 
     def brief(self):
         return {"rc": self.rc, "stderr": self.err_text[-400:], "stdout_len": len(self.out), "timed_out": self.timed_out}
 
 
 def kestrel(args, env=None, stdin=b"", timeout=60, cwd=None, stdout_path=None, stdin_path=None, raw_env=None, setsid=False,
-            stdout_closed=False, rlimit_as=None, stdin_pieces=None):
+            stdout_closed=False, rlimit_as=None, stdin_pieces=None, stderr_path=None):
     """Run the CLI with a clean environment.  stdin is a pipe (never a terminal).  raw_env: further variables given as
     bytes (values that are not UTF-8); setsid: in a session of its own, i.e. without a controlling terminal."""
     e = {"PATH": "/usr/bin:/bin", "HOME": "/nonexistent", "LANG": "C.UTF-8"}
@@ -92,15 +98,18 @@ def kestrel(args, env=None, stdin=b"", timeout=60, cwd=None, stdout_path=None, s
         finally:
             if fout:
                 fout.close()
+    ferr = open(stderr_path, "wb") if stderr_path else None      # e.g. /dev/full: nothing can be reported
     try:
         p = subprocess.run([KESTREL] + list(args), input=None if fin else stdin, stdin=fin,
-                           stdout=fout if fout else subprocess.PIPE, stderr=subprocess.PIPE,
+                           stdout=fout if fout else subprocess.PIPE, stderr=ferr if ferr else subprocess.PIPE,
                            env=e, timeout=timeout, cwd=cwd, start_new_session=setsid,
                            preexec_fn=(lambda: __import__("resource").setrlimit(__import__("resource").RLIMIT_AS, (rlimit_as, rlimit_as))) if rlimit_as else None)
-        return Run(p.returncode, p.stdout if not fout else b"", p.stderr)
+        return Run(p.returncode, p.stdout if not fout else b"", p.stderr if not ferr else b"")
     except subprocess.TimeoutExpired as ex:
         return Run(-999, b"", (ex.stderr or b""), timed_out=True)
     finally:
+        if ferr:
+            ferr.close()
         if fin:
             fin.close()
         if fout:
